@@ -3,6 +3,7 @@ package harness
 import (
 	"encoding/json"
 	"sort"
+	"time"
 
 	"verif.local/sim/simrt"
 	"verif.local/sim/world"
@@ -192,6 +193,22 @@ type Env struct {
 	Tier  string
 	// Quiet disables sampling/probing (used by the minimiser)
 	Quiet bool
+	// Deadline (unix seconds, 0 = none) of the batch: enumerations inside one
+	// case stop early once it has passed (the case then counts as partly explored).
+	Deadline int64
+}
+
+// Expired reports whether the batch deadline has passed.
+func (e *Env) Expired() bool {
+	return e.Deadline > 0 && time.Now().Unix() > e.Deadline
+}
+
+// WithBudget runs f with a case-specific step budget.
+func WithBudget(b uint64, f func()) {
+	old := DefaultBudget
+	DefaultBudget = b
+	defer func() { DefaultBudget = old }()
+	f()
 }
 
 // Run is RunCLI plus bookkeeping.
